@@ -54,6 +54,9 @@ type Elem struct {
 	Items   []Item  `json:"items,omitempty"`
 	Ordered bool    `json:"ordered,omitempty"`
 	Rows    [][]int `json:"rows,omitempty"` // table: words per cell
+	// SameAs (headings, only with Case.ParaHeadings): k > 0 = the heading has the words of the k-th heading of the
+	// document (1-based), which stands on an earlier page: the same section title again ("Summary" per chapter)
+	SameAs int `json:"same_as,omitempty"`
 }
 
 type Page struct {
@@ -87,6 +90,9 @@ type Case struct {
 	Pages  []Page   `json:"pages"`
 	Cfg    Cfg      `json:"cfg"`
 	Labels []string `json:"labels,omitempty"`
+	// ParaHeadings (form "elements"): headings are ordinary Paragraph elements; what makes them headings is their
+	// entry in Page.Layout.Headings (the shape of a document extracted from a PDF)
+	ParaHeadings bool `json:"para_headings,omitempty"`
 	// Warm: the chunker object is not fresh - it chunked another document (which ends inside nested sections)
 	// just before. Nothing of that document may show in the result.
 	Warm bool `json:"warm,omitempty"`
@@ -166,24 +172,30 @@ type built struct {
 	emptyPages []int // pages holding a paragraph or list without any word (layout form)
 	doc        *model.Document
 	tokens     []token
-	index      map[string]int
+	index      map[string][]int // word -> its occurrences in document order (more than one only for repeated headings)
 	headings   []headingInfo
 }
 
 func (c Case) build() *built {
-	b := &built{doc: model.NewDocument(), index: map[string]int{}}
+	b := &built{doc: model.NewDocument(), index: map[string][]int{}}
 	b.doc.Metadata.Title = c.Title
 	var stack, major secpath.Stack
 	next := 0
+	var reuse []string // words to use instead of fresh ones (a heading repeating an earlier title)
 	words := func(kind byte, n, page int, heading int) []string {
 		out := make([]string, n)
 		for i := range out {
 			t := fmt.Sprintf("%c%05d", kind, next)
-			next++
+			if reuse != nil {
+				t = reuse[i]
+			} else {
+				next++
+			}
 			out[i] = t
-			b.index[t] = len(b.tokens)
+			b.index[t] = append(b.index[t], len(b.tokens))
 			b.tokens = append(b.tokens, token{text: t, page: page, kind: kind, heading: heading, path: stack, major: major})
 		}
+		reuse = nil
 		return out
 	}
 	minLevel := c.Cfg.MinHeadingLevel
@@ -201,6 +213,10 @@ func (c Case) build() *built {
 			case "h":
 				hi := len(b.headings)
 				first := len(b.tokens)
+				if c.ParaHeadings && e.SameAs > 0 && e.SameAs <= len(b.headings) && b.headings[e.SameAs-1].page != p.Number {
+					reuse = strings.Fields(b.headings[e.SameAs-1].title)
+					e.N = len(reuse)
+				}
 				ws := words('h', e.N, p.Number, hi)
 				title := strings.Join(ws, " ")
 				before, beforeMajor := stack, major
@@ -216,6 +232,14 @@ func (c Case) build() *built {
 				text := title
 				if e.Pad {
 					text = "  " + title + " \t"
+				}
+				if c.ParaHeadings && c.Form == "elements" {
+					page.AddElement(&model.Paragraph{Text: text})
+					if page.Layout == nil {
+						page.Layout = &model.PageLayout{}
+					}
+					page.Layout.Headings = append(page.Layout.Headings, model.HeadingInfo{Text: text, Level: e.Level})
+					break
 				}
 				page.AddElement(&model.Heading{Text: text, Level: e.Level})
 				if page.Layout != nil {
@@ -440,11 +464,21 @@ func checkCase(c Case) error {
 		}
 		return n - 1
 	}
+	used := map[int]bool{}
 	for _, m := range tokenRE.FindAllStringIndex(stream, -1) {
-		ti, ok := b.index[stream[m[0]:m[1]]]
+		occ, ok := b.index[stream[m[0]:m[1]]]
 		if !ok {
 			return fmt.Errorf("chunk %d contains the word %q, which is not in the document", chunkOf(m[0]), stream[m[0]:m[1]])
 		}
+		// a word that stands in the document several times (repeated section title): its occurrences in order
+		ti := occ[len(occ)-1]
+		for _, o := range occ {
+			if !used[o] {
+				ti = o
+				break
+			}
+		}
+		used[ti] = true
 		seq = append(seq, found{ti, chunkOf(m[0])})
 	}
 	// exactly once, in document order
@@ -751,10 +785,55 @@ func genCase(t *rapid.T) Case {
 		}
 		c.Pages = append(c.Pages, p)
 	}
+	if c.Form == "elements" && rapid.IntRange(0, 2).Draw(t, "paraHeadings") == 0 {
+		c.ParaHeadings = true
+		// some headings repeat the title of a heading of an earlier page; a page never holds the same title twice
+		nh := 0
+		firstOnPage := 0
+		original := map[int]bool{} // headings (1-based) with a title of their own
+		for pi := range c.Pages {
+			firstOnPage = nh
+			for ei := range c.Pages[pi].Elems {
+				if c.Pages[pi].Elems[ei].Kind != "h" {
+					continue
+				}
+				nh++
+				original[nh] = true
+				if firstOnPage > 0 && rapid.IntRange(0, 2).Draw(t, "repeatTitle") == 0 {
+					if k := rapid.IntRange(1, firstOnPage).Draw(t, "sameAs"); original[k] {
+						c.Pages[pi].Elems[ei].SameAs = k
+						original[nh] = false
+					}
+				}
+			}
+		}
+		// (two headings of one page may not repeat the same earlier title either)
+		for pi := range c.Pages {
+			seen := map[int]bool{}
+			for ei := range c.Pages[pi].Elems {
+				if k := c.Pages[pi].Elems[ei].SameAs; k > 0 {
+					if seen[k] {
+						c.Pages[pi].Elems[ei].SameAs = 0
+					}
+					seen[k] = true
+				}
+			}
+		}
+	}
 	c.Warm = rapid.IntRange(0, 3).Draw(t, "warmChunker") == 0
 	c.Labels = labels(c, maxChars)
 	if c.Warm {
 		c.Labels = append(c.Labels, "chunker-reused")
+	}
+	if c.ParaHeadings {
+		c.Labels = append(c.Labels, "headings-as-paragraphs")
+		for _, p := range c.Pages {
+			for _, e := range p.Elems {
+				if e.SameAs > 0 {
+					c.Labels = append(c.Labels, "repeated-title")
+				}
+			}
+		}
 	}
 	return c
 }
